@@ -27,7 +27,7 @@ var (
 )
 
 func init() {
-	core.Register(core.Check{ID: "C13", Level: "model_checking", Run: func(c *core.Ctx) { runC13(c); reentrancyPass(c, "C13") }})
+	core.Register(core.Check{ID: "C13", Level: "model_checking", Run: func(c *core.Ctx) { runC13(c); historyPass(c, "C13"); reentrancyPass(c, "C13") }})
 	core.Register(core.Check{ID: "C13race", Level: "other", Run: runC13Race})
 }
 
